@@ -22,6 +22,9 @@ func init() {
 			{Name: "special", Variant: "plain", N: core.Tiered(40, 400), Run: c19Special},
 			// "started from any valid date ... for any number of steps" also holds for the n-th run of a process: sequences
 			// of runs that repeat start dates with other lengths, while the caller recycles (clears) earlier output arrays
+			// decades-long single runs (33000-70000 daily steps) from EVERY day of a year: a skip-ahead or block scheme inside
+			// the generator only fails for the start dates that put a block boundary on a particular calendar day
+			{Name: "longstarts", Variant: "plain", N: core.Tiered(366, 1500), Run: c19LongStarts, TimeoutS: 600},
 			{Name: "history", Variant: "plain", N: core.Tiered(60, 3000), Run: c19History},
 		},
 		Exhaustive: func(t string) bool { return t == "thorough" },
@@ -209,4 +212,15 @@ func c19History(c *core.Ctx) {
 		}
 		c.Count("runs_in_histories", 1)
 	}
+}
+
+func c19LongStarts(c *core.Ctx) {
+	// consecutive start days from a base date fixed by the seed (not by the case), so that a run covers whole years of starts
+	base := time.Date(1850+int(c.Seed%200), 1, 1, 0, 0, 0, 0, time.UTC)
+	tt := base.AddDate(0, 0, c.Idx)
+	T := c.R.IntRange(33000, 70000)
+	c.Begin(map[string]interface{}{"model": "DateGenerator", "start": tt.Format("2006-01-02"), "steps": T})
+	c.Class(fmt.Sprintf("longstarts/%s/T%d", yearClass(tt.Year()), T/10000))
+	c.Tag("longstarts")
+	checkDates(c, tt.Day(), int(tt.Month()), tt.Year(), T)
 }
